@@ -80,6 +80,13 @@ func runC07x(c *GCase, clone bool, st *Stats) (dd *c07Diffs, err error) {
 		}
 	}
 	compare := func(what string) {
+		for _, s := range probe.cpSnaps {
+			if now := fmt.Sprint(setElems(s.set)); now != s.repr {
+				msg := fmt.Sprintf("%s: the set of curtailed parsers returned by %s at position %d changed after it was returned: was %s, now %s", what, s.who, s.pos, s.repr, now)
+				diffs = append(diffs, msg)
+				dd.hard = append(dd.hard, msg)
+			}
+		}
 		for _, s := range probe.snaps {
 			if now := RenderResult(s.node, 1); now != s.repr {
 				msg := fmt.Sprintf("%s: the result returned by %s changed after it was returned:\n was %s\n now %s", what, s.who, s.repr, now)
@@ -145,6 +152,49 @@ func runC07x(c *GCase, clone bool, st *Stats) (dd *c07Diffs, err error) {
 		}
 	}
 	compare("after asking every rule again")
+	// asked again in another order: on a context of its own every rule is asked at every offset
+	// front to back, then back to front (by then the context has seen failures further right, and
+	// the cache has been written by other askers). Whether there is a result and which error comes
+	// with the answer is the same both times. (Not with trimming or Single: what those return next
+	// to an error depends on who asked first.)
+	if !trims && !single && !clone {
+		ctxO, fO := NewCtx(in)
+		type ans struct {
+			has bool
+			err string
+		}
+		ask := func(nt, i int) (ans, bool) {
+			n, perr, berr := parseGuarded(b.NT[nt], ctxO, data.EmptyIntMap, fO.Pos(i))
+			if berr != nil {
+				return ans{}, false
+			}
+			a := ans{has: n != nil, err: "<nil>"}
+			if perr != nil {
+				a.err = fmt.Sprintf("%s @%d", perr.Error(), int(perr.Pos())-1)
+			}
+			return a, true
+		}
+		memoR := c.memoRules()
+		first := map[[2]int]ans{}
+		for nt := range g.Rules {
+			for i := 0; i <= len(in); i++ {
+				if a, ok := ask(nt, i); ok {
+					first[[2]int{nt, i}] = a
+				}
+			}
+		}
+		for nt := len(g.Rules) - 1; nt >= 0; nt-- {
+			for i := len(in); i >= 0; i-- {
+				a1, ok1 := first[[2]int{nt, i}]
+				a2, ok2 := ask(nt, i)
+				if ok1 && ok2 && a1 != a2 && memoR[nt] {
+					msg := fmt.Sprintf("asking the memoized N%d at offset %d again (same context, after the other rules had been asked) gives another answer: first result=%v error=%s, then result=%v error=%s", nt, i, a1.has, a1.err, a2.has, a2.err)
+					diffs = append(diffs, msg)
+					dd.hard = append(dd.hard, msg)
+				}
+			}
+		}
+	}
 	if probe.AnswerDiff != "" {
 		diffs = append(diffs, probe.AnswerDiff)
 		dd.hard = append(dd.hard, probe.AnswerDiff)
@@ -464,6 +514,39 @@ func checkC07(ci interface{}, st *Stats) error {
 	return nil
 }
 
+// lrFan: several directly left-recursive rules (one or two left-recursive alternatives each, with or
+// without a base alternative) and several rules that each start with two of them; the root asks
+// the combining rules one after the other and the first one once more. The sets of curtailed
+// parsers of the left-recursive rules meet in the combining rules, in different combinations.
+func lrFan(t *rapid.T) *Grammar {
+	k := rapid.IntRange(2, 4).Draw(t, "fanLR")
+	m := rapid.IntRange(2, 3).Draw(t, "fanComb")
+	g := &Grammar{Rules: make([]*Expr, 1+k+m), Layer: make([]int, 1+k+m)}
+	term := func() *Expr { return tm("ab"[rapid.IntRange(0, 1).Draw(t, "fanCh")]) }
+	for i := 1; i <= k; i++ {
+		alts := []*Expr{{K: KSeqOf, Kids: []*Expr{rf(i), term()}}}
+		if rapid.Bool().Draw(t, "fanTwo") {
+			alts = append(alts, &Expr{K: KSeqOf, Kids: []*Expr{rf(i), term()}})
+		}
+		if rapid.Bool().Draw(t, "fanBase") {
+			alts = append(alts, term())
+		}
+		g.Rules[i] = &Expr{K: KAny, Kids: alts}
+	}
+	var roots []*Expr
+	for j := 1 + k; j <= k+m; j++ {
+		x := rapid.IntRange(1, k).Draw(t, "fanX")
+		y := rapid.IntRange(1, k).Draw(t, "fanY")
+		g.Rules[j] = &Expr{K: KAny, Kids: []*Expr{{K: KSeqOf, Kids: []*Expr{rf(x), term()}}, {K: KSeqOf, Kids: []*Expr{rf(y), term()}}}}
+		g.Layer[j] = 1
+		roots = append(roots, rf(j))
+	}
+	g.Layer[0] = 2
+	g.Rules[0] = &Expr{K: KAny, Kids: append(roots, rf(1+k))}
+	g.number()
+	return g
+}
+
 func init() {
 	register(&Property{
 		ID:      "C07",
@@ -476,7 +559,17 @@ func init() {
 			if thorough() {
 				o.MaxNT, o.MaxInput = 4, 8
 			}
-			if rapid.IntRange(0, 3).Draw(t, "trims") == 0 {
+			if rapid.IntRange(0, 11).Draw(t, "lrfan") == 5 {
+				g := lrFan(t)
+				return &GCase{G: g, In: rapid.StringMatching("[ab]{0,3}").Draw(t, "fanIn"), MemoAll: true}
+			}
+			bigRing := rapid.IntRange(0, 11).Draw(t, "bigring") == 0
+			if bigRing {
+				// many mutually left-recursive rules: sets of curtailed parsers with several members, merged
+				// by several consumers
+				o.MaxNT, o.MaxDepth, o.MaxInput, o.Skeleton, o.SkWeights, o.Single = 8, 2, 4, true, []int{3, 3, 4, 7}, false
+			}
+			if !bigRing && rapid.IntRange(0, 3).Draw(t, "trims") == 0 {
 				o.Trims = true
 				o.Alphabet = "ab \n"
 				o.MaxInput += 2
@@ -492,7 +585,7 @@ func init() {
 				fixRepetitions(g, t, o.Alphabet)
 				g.number()
 			}
-			return &GCase{G: g, In: GenInput(t, g, o), MemoAll: o.Trims || rapid.IntRange(0, 3).Draw(t, "memoAll") > 0}
+			return &GCase{G: g, In: GenInput(t, g, o), MemoAll: o.Trims || bigRing || rapid.IntRange(0, 3).Draw(t, "memoAll") > 0}
 		},
 		Check: checkC07,
 	})
